@@ -31,6 +31,16 @@ def main(argv):
     if "--only" in argv:
         only = set(argv[argv.index("--only") + 1].split(","))
     res = h.run(tw, tier, seed, only)
+    # frequent failures of one kind (e.g. a known finding) must not crowd out other kinds: at most three examples per
+    # (function, clause, tags), the total count is kept
+    per, kept = {}, []
+    for f in res.get("failures", []):
+        k = (f.get("function"), (f.get("violations") or [""])[0].split(":")[0][:60], json.dumps(f.get("tags", {}), sort_keys=True, default=str))
+        per[k] = per.get(k, 0) + 1
+        if per[k] <= 3:
+            kept.append(f)
+    res.setdefault("n_failures", len(res.get("failures", [])))
+    res["failures"] = kept[:80]
     print(json.dumps(res, default=str))
     return 0
 
